@@ -206,6 +206,47 @@ def check_mapping_shape(fx, rep, rule):
     rep.floor(rule, n_shape, 1, "mapping elements lifted from a destructured hash pre-image")
 
 
+def check_row_as_handed(fx, rep, rule):
+    """The layout writer files a row under the index and the offset it is handed: `StorageLayout::add(index, offset, typ)` pushes
+    a `StorageSlot` whose three fields are its three parameters as they stand (through `into()` and the entry's own constructor).
+    Arithmetic on the way (carrying whole words of the offset into the index, say) reports entries for slots the code never
+    touched."""
+    add = fx.body("layout::StorageLayout::add")
+    if not rep.anchor(rule, add is not None and add.get("hir"), "StorageLayout::add"):
+        return
+    root = add["hir"]["value"]
+    mutated = T.mutated_locals(root)
+    params = [p_ for p_ in add["hir"]["params"] if p_.get("p") == "Bind" and p_.get("name") != "self"]
+    pushes = [(c, ps) for c, ps in F.calls(root) if c.get("k") == "MethodCall" and c["method"] in ("push", "insert", "push_back") and "layout::StorageSlot" in (c.get("recv_ty") or "")]
+    rep.oblige(len(pushes) == 1 and not T.path_conditions(pushes[0][1], pushes[0][0]), rule, "row-pushed-once", F.loc(add["span"]), f"StorageLayout::add files its row at {len(pushes)} place(s) / conditionally: exactly one unconditional push is expected")
+
+    def strip_conv(t):
+        while isinstance(t, tuple) and ((t[0] == "call" and isinstance(t[1], str) and F.strip_generics(t[1]).split("::")[-1] in ("into", "from", "clone") and len(t[2]) == 1) or t[0] in ("cast",)):
+            t = t[2][0] if t[0] == "call" else t[1]
+        return t
+
+    for c, ps in pushes[:1]:
+        t = T.term(c["args"][-1], T.env_at(ps, c, mutated), mutated)
+        t = T.inline_calls(t, fx, 2, (), lambda d: d.startswith("layout::StorageSlot::"))
+        ok = isinstance(t, tuple) and t[0] == "struct" and "StorageSlot" in str(t[1])
+        bad = []
+        if ok:
+            fields = dict((f, strip_conv(v)) for f, v in t[3])
+            want = {"index": 0, "offset": 1, "typ": 2}
+            for f, i in want.items():
+                v = fields.get(f)
+                if not (i < len(params) and isinstance(v, tuple) and v[0] == "local" and v[1] == params[i]["local"]):
+                    bad.append(f"{f} = {T.short(v)[:60] if v else '?'}")
+        rep.oblige(
+            ok and not bad,
+            rule,
+            "row-as-handed",
+            F.loc(c["span"]),
+            f"StorageLayout::add does not file the row under the index / offset / type it is handed ({'; '.join(bad) or T.short(t)[:80]}): entries move to slots (or offsets) the analysed code never named",
+            sample={"rule": rule, "row": "StorageSlot{index, offset, typ} = the three parameters"},
+        )
+
+
 def check(fx, rep, tier):
     cg = F.CallGraph(fx)
     refs = fn_refs(fx)
@@ -240,6 +281,8 @@ def check(fx, rep, tier):
                                 if set(F.pat_bindings(s2["pat"])) & src:
                                     ok = True
         rep.oblige(ok, "R05.1", f"row-index:{F.strip_generics(b['def'])}", F.loc(n["span"]), f"`{b['def']}` adds a layout row whose index is not taken from StorageSlot {{ key: KnownData {{ value }} }}: {why}", sample={"rule": "R05.1", "fn": b["def"], "index_from": "StorageSlot{key: KnownData{value}}" if ok else "?"})
+
+    check_row_as_handed(fx, rep, "R05.1")
 
     # ---------------------------------------------------------------- R05.2
     slot_sites = [x for x in fresh_constructions(fx, {"StorageSlot"}) if not x[4]]
